@@ -85,6 +85,23 @@ def short_final_blocks(t, rnd):
     return jobs
 
 
+def silence_histories(t, rnd):
+    """histories of blocks in which a channel slot is digitally silent, active, equal to its neighbour or its negative, block by block
+    (signal gapmix:<block size>), under every combination of mid-side and quick / exhaustive correlation and the presets: what the
+    encoder keeps per channel slot between frames must not depend on what the slot held before"""
+    jobs = []
+    for bs in (16, 32, 192):
+        for ch in (2, 2, 3, 8):
+            for ms, fast in ((True, True), (False, True), (True, False), (False, False)):
+                for bps in ((8, 16, 24, 32) if t == "thorough" else (rnd.choice([8, 16]), rnd.choice([24, 32, 12]))):
+                    jobs.append({"fe": rnd.choice(FES), "rate": 44100, "bps": bps, "channels": ch,
+                                 "opts": {"block_size": bs, "max_lpc": rnd.choice([-1, 4, 8]), "max_po": rnd.choice([0, 3, 6]), "mid_side": ms, "fast_corr": fast,
+                                          "padding": -1, "seektable": "none"},
+                                 "pcm": {"signal": "gapmix:%d" % bs, "seed": rnd.randint(1, 99999), "frames": bs * (14 if bs < 100 else 8) + rnd.choice([0, 5])},
+                                 "tag": "silence-history"})
+    return jobs
+
+
 def table_block_sizes(t, rnd, limit=70000):
     """block lengths around the frame header's table of common sizes (192, 576 * 2^n, 256 * 2^n): every multiple of 192 and 576 up to
     4608 * 2, the powers of two and their neighbours - once as the configured block size, once as the length of the final short block"""
